@@ -72,19 +72,42 @@ std::vector<int> listTids() {
   return out;
 }
 
-char tidState(int tid) {
+TidStat tidStat(int tid) {
+  TidStat r;
   char path[64];
   snprintf(path, sizeof path, "/proc/self/task/%d/stat", tid);
   int fd = open(path, O_RDONLY | O_CLOEXEC);
-  if (fd < 0) return 0;
-  char buf[512];
+  if (fd < 0) return r;
+  char buf[768];
   ssize_t n = read(fd, buf, sizeof buf - 1);
   close(fd);
-  if (n <= 0) return 0;
+  if (n <= 0) return r;
   buf[n] = 0;
   const char* p = strrchr(buf, ')');
-  if (!p || p[1] != ' ' || !p[2]) return '?';
-  return p[2];
+  if (!p || p[1] != ' ' || !p[2]) {
+    r.state = '?';
+    return r;
+  }
+  r.state = p[2];
+  // fields after the state: ppid pgrp session tty tpgid flags minflt cminflt majflt cmajflt utime stime
+  const char* q = p + 3;
+  // ... cutime cstime priority nice num_threads itrealvalue starttime
+  long long v[19] = {0};
+  int got = 0;
+  while (*q && got < 19) {
+    while (*q == ' ') ++q;
+    char* end = nullptr;
+    v[got++] = strtoll(q, &end, 10);
+    if (end == q) break;
+    q = end;
+  }
+  if (got >= 12) r.ticks = static_cast<long>(v[10] + v[11]);
+  if (got >= 19) r.start = v[18];
+  return r;
+}
+
+char tidState(int tid) {
+  return tidStat(tid).state;
 }
 
 std::vector<int> minusTids(const std::vector<int>& a, const std::vector<int>& b) {
@@ -122,6 +145,7 @@ bool waitAllParked(dispenso::ThreadPool& pool, const std::vector<int>& workerTid
     }
     lastWaits = fs.waits;
     lastExits = fs.waitExits;
+    vrt::progress(); // the harness itself is polling: not a hang of the code under test
     vrt::sleepUs(c ? 120 : 60);
   }
   return false;
